@@ -35,9 +35,10 @@ func (x *Exec) envFor(fr *Frame, st *State, old *State) *Env {
 			e.pkg = p.Pkg.Pkg
 		}
 	}
-	if fr != nil && fr.fc != nil {
-		for _, l := range fr.fc.Lets {
-			_ = l
+	if fr != nil && fr == x.topFrame {
+		// "let" names of the contract denote entry-state values everywhere in the function's clauses
+		for k, v := range x.topLets {
+			e.names[k] = v
 		}
 	}
 	return e
@@ -145,6 +146,8 @@ func (e *Env) coerce(a, b Val) (Val, Val, intInfo, error) {
 
 func (e *Env) Eval(ex Expr) (Val, error) {
 	u := e.u()
+	u.specDepth++
+	defer func() { u.specDepth-- }()
 	switch t := ex.(type) {
 	case EInt:
 		n, ok := new(big.Int).SetString(t.V, 0)
@@ -526,6 +529,24 @@ func (e *Env) ghostField(xv Val, name string) (Val, error) {
 	if gf == nil {
 		return Val{}, fmt.Errorf("no ghost field $%s on %s", name, owner)
 	}
+	if i := strings.Index(gf.Type, "->"); i >= 0 {
+		// array-valued ghost field "K -> V"
+		kt, err := e.x.prog.LookupType(strings.TrimSpace(gf.Type[:i]), e.pkg)
+		if err != nil {
+			return Val{}, fmt.Errorf("ghost field $%s: %v", name, err)
+		}
+		vt, err := e.x.prog.LookupType(strings.TrimSpace(gf.Type[i+2:]), e.pkg)
+		if err != nil {
+			return Val{}, fmt.Errorf("ghost field $%s: %v", name, err)
+		}
+		kl, vl := u.Layout(kt), u.Layout(vt)
+		if len(kl) != 1 || len(vl) != 1 {
+			return Val{}, fmt.Errorf("ghost field $%s: key and value must be scalar", name)
+		}
+		so := ArrSort(kl[0].So, vl[0].So)
+		cn := ghostFieldComp(owner, name, "")
+		return Val{T: nil, S: []Term{Select(u.comp(e.st, cn, ArrSort(SInt, so)), xv.One())}, GT: vt, GK: kt}, nil
+	}
 	gt, err := e.x.prog.LookupType(gf.Type, e.pkg)
 	if err != nil {
 		return Val{}, fmt.Errorf("ghost field $%s: %v", name, err)
@@ -548,6 +569,15 @@ func (e *Env) index(t EIndex) (Val, error) {
 	iv, err := e.Eval(t.I)
 	if err != nil {
 		return Val{}, err
+	}
+	if xv.T == nil && xv.GT != nil {
+		k := iv
+		if k.T == nil && k.Re != nil {
+			if ii, ok := intInfoOf(xv.GK); ok {
+				k = scalar(xv.GK, k.Re(ii))
+			}
+		}
+		return scalar(xv.GT, Select(xv.S[0], k.One())), nil
 	}
 	if xv.T == nil {
 		return Val{}, fmt.Errorf("cannot index %s", t.X)
